@@ -63,9 +63,10 @@ Definition R_BROKEN_SESSION : N := 2.
 Definition R_BLOCKED : N := 3.
 Definition R_ERR : N := 4.          (* any other error (send failure, repeat close ...) *)
 Definition R_NOMULTIPLEX : N := 5.
+Definition R_NOSTREAM : N := 6.    (* the application holds no such stream (harness-level outcome) *)
 
 Inductive ev :=
-| EFrame (from : side) (c : N) (sid seq cl : N) (len : N)  (* a frame put on the wire *)
+| EFrame (from : side) (c : N) (fr : wframe)               (* a frame put on the wire *)
 | ERet (code : N) (n : N) (data : list N)                  (* result of the label's own call *)
 | EPend (p : pending) (code : N) (n : N) (data : list N)   (* a blocked call that has now returned *)
 | EConnClosed (s : side) (c : N).                          (* side s closed its end of connection c *)
@@ -214,21 +215,22 @@ Definition sb_send (y : sys) (s : side) (fr : wframe) (pick : N) : sys * list ev
           else
             let cn' := conn_set_q cn (other s) (conn_q cn (other s) ++ [fr]) in
             (set_conns y (setN (N.to_nat pick) cn' (sy_conns y)),
-             [EFrame s pick (w_sid fr) (w_seq fr) (w_cl fr) (N.of_nat (length (w_pay fr)))], 0)
+             [EFrame s pick fr], 0)
       end
   end.
 
 Definition hd_pick (ch : list N) : N * list N := match ch with [] => (0, []) | c :: t => (c, t) end.
 
 (* Stream.obfuscateAndSend: take the sequence number, advance it, send; a broken
-   switchboard closes the session.  Returns ok? *)
+   switchboard closes the session.  Returns ok?  (writingFrame.Seq is a uint64: the model
+   does not wrap it - a stream never sends 2^64 frames, which the property grants.) *)
 Definition stream_emit (y : sys) (s : side) (sid : N) (pay : list N) (ch : list N)
   : sys * list N * list ev * bool :=
   match lookup sid (se_objs (sess y s)) with
   | None => (y, ch, [], false)
   | Some st =>
       let fr := mkW sid (st_seq st) (st_wcl st) pay in
-      let st' := mkS ((st_seq st + 1) mod two64) (st_wcl st) (st_closed st) (st_rb st) in
+      let st' := mkS (st_seq st + 1) (st_wcl st) (st_closed st) (st_rb st) in
       let y1 := set_sess y s (upd_objs (sess y s) (update sid st' (se_objs (sess y s)))) in
       let '(c, ch') := hd_pick ch in
       let '(y2, evs, rc) := sb_send y1 s fr c in
@@ -253,7 +255,7 @@ Definition session_close (y : sys) (s : side) (ch : list N) : sys * list N * lis
 Definition close_stream (y : sys) (s : side) (sid : N) (active : bool) (ch : list N)
   : sys * list N * list ev * N :=
   match lookup sid (se_objs (sess y s)) with
-  | None => (y, ch, [], R_ERR)
+  | None => (y, ch, [], R_NOSTREAM)
   | Some st =>
       if st_closed st then (y, ch, [], R_ERR)   (* errRepeatStreamClosing *)
       else
@@ -347,7 +349,7 @@ Fixpoint write_loop (fuel : nat) (y : sys) (s : side) (sid : N) (data : list N) 
   end.
 Definition stream_write (y : sys) (s : side) (sid : N) (data : list N) (ch : list N) : sys * list ev :=
   match lookup sid (se_objs (sess y s)) with
-  | None => (y, [ERet R_ERR 0 []])
+  | None => (y, [ERet R_NOSTREAM 0 []])
   | Some st =>
       if st_closed st then (y, [ERet R_BROKEN_STREAM 0 []])
       else
@@ -358,7 +360,7 @@ Definition stream_write (y : sys) (s : side) (sid : N) (data : list N) (ch : lis
 (* Stream.Read, non-blocking view: 0 = returned, blocked otherwise *)
 Definition try_read (y : sys) (s : side) (sid : N) (k : nat) : option (sys * N * list N) :=
   match lookup sid (se_objs (sess y s)) with
-  | None => Some (y, R_ERR, [])
+  | None => Some (y, R_NOSTREAM, [])
   | Some st =>
       match k with
       | O => Some (y, R_OK, [])
